@@ -17,14 +17,20 @@ func main() {
 	prop := flag.String("prop", "", "property id (C01..C20)")
 	tier := flag.String("tier", "quick", "quick|thorough")
 	repo := flag.String("repo", "/repo", "repository under analysis")
-	verif := flag.String("verif", "/verif", "verification directory (evidence, replay, fixtures, known findings)")
+	verif := flag.String("verif", "/verif", "verification directory (fixtures, known findings; evidence and replay unless -out is given)")
+	out := flag.String("out", "", "directory for evidence/ and replay/ (default: the -verif directory)")
 	flag.Parse()
 	if t := os.Getenv("VERIF_TIER"); t == "quick" || t == "thorough" {
 		if !isFlagSet("tier") {
 			*tier = t
 		}
 	}
-	r := report.New(*prop, *tier, *verif)
+	outDir := *verif
+	if *out != "" {
+		outDir = *out
+	}
+	r := report.New(*prop, *tier, outDir)
+	r.FindingsDir = *verif
 	if s, err := strconv.ParseInt(os.Getenv("VERIF_SEED"), 10, 64); err == nil {
 		r.Seed = s
 	}
